@@ -92,6 +92,9 @@ def histories(files, tier):
                     out.append(evs + [("rewrite_modified", f)])              # in-place update, then its modified event
                     out.append(evs + [("rewrite_modified", f), ("modified", f)])
             out.append(evs + [("created", "chA/2014-03-09T12-30-30/rf@1394368299.000.h5")])  # stale: file never existed
+            # stale events for a metadata file that is gone by the time the event is handled
+            out.append(evs + [("created", "chA/metadata/2014-03-09T12-30-30/metadata@1394368290.h5")])
+            out.append(evs + [("modified", "chA/metadata/2014-03-09T12-30-30/metadata@1394368290.h5")])
             out.append([("deleted", evs[-1][1])] + evs)
     return out
 
@@ -296,6 +299,24 @@ def run_job(job):
                                     os.replace(os.path.join(r_, f_), os.path.join(dest, rel_))
                         core.rm(arch)
                     observe("end", "after history")
+                    if crashed and not fault_mode and method != "move":
+                        # the mirror process died at that boundary; a new one is started over the same directories and
+                        # is told about every file again: afterwards everything selected is mirrored, nothing is staged
+                        with contextlib.redirect_stdout(io.StringIO()), contextlib.redirect_stderr(io.StringIO()):
+                            mir2 = mirror_mod.DigitalRFMirror(src, dest, method=method, starttime=start, endtime=end)
+                            handlers2 = [mir2.event_handlers[i] for i in order if i < len(mir2.event_handlers)]
+                            try:
+                                for kind, rel in base_events(files):
+                                    if os.path.exists(os.path.join(src, rel)):
+                                        for h in handlers2:
+                                            h.dispatch(FileCreatedEvent(os.path.join(src, rel)))
+                            except Exception as e:  # noqa: BLE001
+                                errs.append(({"class": "restarted_mirror_raised", "exc": type(e).__name__}, repr(e)))
+                        rest = end_oracle(method, src, dest, files, selected, cur_sha, base_events(files), rf_files, md_files)
+                        # (copy and link only: in move mode a file staged before the crash is not in the source any more, its
+                        #  event is not repeated, and the statement asks for no more than an intact copy somewhere)
+                        errs += [(dict(k, after_restart=True), d_) for k, d_ in rest if k["class"] in (
+                            "selected_file_not_mirrored", "mirrored_content_differs", "incomplete_file_under_final_name")]
                     if not crashed and not (fault_mode and cp is not None):
                         errs += end_oracle(method, src, dest, files, selected, cur_sha, hist, rf_files, md_files)
                         part["traces"] += 1
@@ -457,6 +478,8 @@ def jobs(tier):
     for h in crash_h:
         out.append(("move", False, [h], [tuple(range(3))], "crash"))
         out.append(("copy", False, [h], [tuple(range(2))], "crash"))
+        if h is crash_h[0] or tier != "quick":
+            out.append(("link", False, [h], [tuple(range(2))], "crash"))
         out.append(("move", False, [h], [tuple(range(3))], "fault"))
         out.append(("link", False, [h], [tuple(range(2))], "fault"))
     return out
